@@ -26,6 +26,8 @@ type Ctx struct {
 	tm     *textModel
 
 	linDepth int
+	preCache map[*ssa.Function][]preCand
+	preBusy  map[*ssa.Function]bool
 }
 
 func NewCtx(p *load.Prog, prop, config string) *Ctx {
